@@ -1,0 +1,16 @@
+//go:build verif
+
+package writer
+
+// C16: remote-write sample timestamps (ms, but s and ns are accepted) are
+// stored at second resolution without changing the instant.
+
+//@ spec secOfEpoch(v uint64) uint64 = ite(v >= 1000000000000000000, v / 1000000000, ite(v >= 99999999999, v / 1000, v))
+
+//@ func parseTimestamp
+//@   props C16
+//@   requires timestamp >= 0 && secOfEpoch(uint64(timestamp)) < 4294967296
+//@   ensures uint64(result) == secOfEpoch(uint64(timestamp))
+//@   pure
+//@   safe
+//@ end
